@@ -12,7 +12,9 @@
 //
 // Development switches (environment): C10_DEBUG=1 prints a histogram of
 // violation kinds per input class with one example each; C10_COUNT=1 only
-// counts the cases of the tier; C10_PROF=<file> writes a CPU profile.
+// counts the cases of the tier; C10_PROF=<file> writes a CPU profile;
+// C10_SHAPE=<n> restricts the run to the models of one shape (floors will
+// then not be reached: use it only to look at violations).
 package main
 
 import (
@@ -213,7 +215,7 @@ func tags(c Case) []string {
 }
 
 func check(x *ctx, w *worker, c Case, distinct *mc.Set) {
-	c.Vals = canonVals(c.Fin, c.Vals)
+	c = c.canon()
 	res := w.exec(c)
 	st := x.st
 	atomic.AddInt64(&st.total, 1)
@@ -720,7 +722,7 @@ func enumerate(u unit, tier string, emit func(Case)) {
 						if sk && tg != tKey && tg != tCond {
 							continue
 						}
-						c := Case{Model: u.m, Fin: u.fin, Sel: s, Vals: canonVals(u.fin, cb.v), KeySpell: sp, Target: tg, TVals: cb.tv, SkipHooks: sk}
+						c := Case{Model: u.m, Fin: u.fin, Sel: s, Vals: cb.v, KeySpell: sp, Target: tg, TVals: cb.tv, SkipHooks: sk}.canon()
 						k := c.key()
 						if seen[k] {
 							continue
@@ -765,7 +767,7 @@ func main() {
 			fmt.Fprintln(os.Stderr, err)
 			os.Exit(3)
 		}
-		c.Vals = canonVals(c.Fin, c.Vals)
+		c = c.canon()
 		w := newWorker()
 		res := w.exec(c)
 		pr := predict(c)
@@ -781,6 +783,15 @@ func main() {
 
 	var units []unit
 	ms := models(args.Tier)
+	if sh := os.Getenv("C10_SHAPE"); sh != "" { // development: only models of one shape
+		var keep []ModelSpec
+		for _, m := range ms {
+			if fmt.Sprint(m.Shape) == sh {
+				keep = append(keep, m)
+			}
+		}
+		ms = keep
+	}
 	for _, m := range ms {
 		for f := 0; f < nFin; f++ {
 			units = append(units, unit{m, f})
@@ -799,7 +810,7 @@ func main() {
 		pprof.StartCPUProfile(f)
 		defer pprof.StopCPUProfile()
 	}
-	deadline := time.Now().Add(20 * time.Minute)
+	deadline := time.Now().Add(9*time.Minute + 30*time.Second)
 	var timedOut int32
 	var next int64 = -1
 	var distinctTotal int64
@@ -815,6 +826,9 @@ func main() {
 				if int(n) >= len(units) {
 					return
 				}
+				// visit the units in a fixed strided order, so that a run cut by
+				// the deadline has seen a cross-section of all model classes
+				n = (n * 7919) % int64(len(units))
 				if time.Now().After(deadline) {
 					atomic.StoreInt32(&timedOut, 1)
 					return
@@ -843,7 +857,8 @@ func main() {
 	ck := runCkey(run, x.outcomes, ckSamples)
 	st := x.st
 	floor := func(name string, got, min int64) {
-		if got < min && run.NumViolations() == 0 {
+		// floors are meaningful for complete runs only
+		if got < min && run.NumViolations() == 0 && atomic.LoadInt32(&timedOut) == 0 {
 			run.HarnessError("vacuous: %s = %d, floor %d", name, got, min)
 		}
 	}
